@@ -38,6 +38,7 @@ type Scenario struct {
 	Separate  bool  `json:"separate"`  // explicit syncs go to the last publisher, which is never announced
 	Faults    int   `json:"faults"`    // block requests answered with status 500 (seeded choice), failed heads are announced again
 	XCancel   bool  `json:"xcancel"`   // explicit syncs run under a context that is cancelled at a random point
+	Entries   int   `json:"entries"`   // entries syncs per publisher (of a chunk chain the publisher also serves), started at random points
 	Scoped    bool  `json:"scoped"`    // explicit syncs bring their own (scoped) block hook
 	Seg       int   `json:"seg"`       // segment depth limit of the subscriber (0: unsegmented)
 	LateReg   bool  `json:"latereg"`   // listeners may be registered after Close has started
@@ -135,6 +136,9 @@ func (r *run) cnum(p int, c cid.Cid) int {
 	}
 	return -1
 }
+
+// entHeads: per publisher the head of the entry-chunk chain it serves besides its advertisements
+var entHeads = map[peer.ID]cid.Cid{}
 
 var syncFrames = []string{"dagsync.(*handler).asyncSyncAdChain", "dagsync.(*handler).handle", "dagsync.(*Subscriber).SyncAdChain", "dagsync.(*Subscriber).watch.func"}
 
@@ -346,8 +350,12 @@ func Execute(sc Scenario, pubs []*chain.Pub) (log []gate.Event, key, detail stri
 	var todo []envAction
 	nextAd := make([]int, sc.Pubs)
 	expLeft := make([]int, sc.Pubs)
+	entLeft := make([]int, sc.Pubs)
 	for i := range expLeft {
 		expLeft[i] = sc.Explicit
+		if _, ok := entHeads[pubs[i].ID]; ok {
+			entLeft[i] = sc.Entries
+		}
 	}
 	regLeft, cancelLeft, closeLeft, cleanLeft := sc.Listeners, sc.Cancels, sc.Closers, sc.Idle
 	var xcancels []context.CancelFunc // contexts of explicit syncs not cancelled yet
@@ -395,6 +403,9 @@ func Execute(sc Scenario, pubs []*chain.Pub) (log []gate.Event, key, detail stri
 				todo = append(todo, envAction{"ann", p + 1, nextAd[p]}) // announce the failed head again
 			}
 			r.fmu.Unlock()
+			if entLeft[p] > 0 && nextAd[p] > 0 && !sc.Separate {
+				todo = append(todo, envAction{"entries", p + 1, 0})
+			}
 			if expLeft[p] > 0 && nextAd[p] > 0 && !sc.Separate {
 				todo = append(todo, envAction{"explicit", p + 1, 0})
 			}
@@ -544,6 +555,26 @@ func Execute(sc Scenario, pubs []*chain.Pub) (log []gate.Event, key, detail stri
 					r.xmu.Unlock()
 					c, err := r.sub.SyncAdChain(xctx, p.AddrInfo(), sopts...)
 					s.RecordG(gate.Event{Ev: "env.explicit.ret", P: a.p, C: r.cnum(a.p, c), Err: err != nil})
+				})
+			case "entries":
+				// the entries of the publisher are fetched: a sync of that publisher like any other -- it waits for the publisher's
+				// lock, and its hook calls go to its own hook
+				entLeft[a.p-1]--
+				p := pubs[a.p-1]
+				s.Record(gate.Event{Ev: "env.entries", P: a.p})
+				xnum++
+				xk := xnum
+				hook := dagsync.ScopedBlockHook(func(pid peer.ID, c cid.Cid, _ dagsync.SegmentSyncActions) {
+					pn := r.pnum(pid)
+					s.RecordG(gate.Event{Ev: "hook", P: pn, C: r.cnum(pn, c), N: xk})
+				})
+				s.Go("entries", func() {
+					s.RecordG(gate.Event{Ev: "env.explicit.start", P: a.p, N: xk})
+					r.xmu.Lock()
+					r.explicitG[gate.Goid()] = true
+					r.xmu.Unlock()
+					err := r.sub.SyncEntries(ctx, p.AddrInfo(), entHeads[p.ID], hook)
+					s.RecordG(gate.Event{Ev: "env.entries.ret", P: a.p, Err: err != nil})
 				})
 			case "reg":
 				regLeft--
@@ -820,6 +851,14 @@ func Run(args []string) *rep.Report {
 			return r
 		}
 		pubs = append(pubs, p)
+		// an entry-chunk chain served by the same publisher (for the entries syncs of family scoped)
+		if ents, err := chain.Build("entries", 2, fmt.Sprintf("c08-ents-%d", i)); err == nil {
+			for _, c := range ents.Cids[1:] {
+				b, _ := ents.Store.Get(c)
+				ch.Store.Put(c, b)
+			}
+			entHeads[p.ID] = ents.Cids[2]
+		}
 	}
 	if ch, err := chain.Build("ads", 4, "c08-nested"); err == nil {
 		NestedPub, _ = chain.NewPub(ch, "c08-pub-nested", true)
@@ -875,6 +914,7 @@ func Run(args []string) *rep.Report {
 			sc.Scoped = *family == "scoped"
 			if sc.Scoped {
 				sc.Explicit = 1 + i%2
+				sc.Entries = i % 2 // every other run: a publisher's entries are fetched while its advertisement syncs go on
 				sc.Resync = i%3 == 0
 				if sc.Resync {
 					sc.Explicit = 2
